@@ -688,7 +688,7 @@ static void x_once(const plan_t *p)
                 if (n > ((uint64_t)1 << 36)) { PROBE("resize_bucket_bytes_unrepresentable"); g_cur_ctx = "count-near-max"; }
                 else if (n < ((uint64_t)1 << 36)) g_cur_ctx = "count-2^32";
             }
-            if ((p->mode == 19 || p->mode == 17) && !m->inited && fn == F_NULL) fn = F_DIV + (int)(o->a[1] % 5);
+            if ((p->mode == 19 || p->mode == 17) && !m->inited && fn == F_NULL && !o->a[7]) fn = F_DIV + (int)(o->a[1] % 5);
             if (!m->settled && m->inited) PROBE("resize_while_pending");
             TRY(cstl_hash_resize(&tb[t], (size_t)n, fn_ptr[fn]));
             if (c17_after(t, "resize")) return;
@@ -725,7 +725,15 @@ static void x_once(const plan_t *p)
                 if (m->builtin && ng.fn != F_NULL) {
                     /* leaving the library's built-in function: its consultations cannot be counted, so "pending"
                      * is not observable until this rehash is done. Finish it now (part of the plan's semantics). */
+                    if (p->mode == 17 && o->a[5] && m->nlive > 0) {
+                        /* C17: the caller's function misbehaves while the table still runs on the built-in one and the
+                         * rehash into the caller's function is being worked off */
+                        ncalls = 0; bad_returned = 0; bad_at = (unsigned)o->a[5]; bad_kind = (int)(o->a[6] % 7);
+                        g_cur_prop = "C17"; g_cur_ctx = "leaving-built-in";
+                        PROBE("c17_fault_while_leaving_builtin");
+                    }
                     TRY(cstl_hash_rehash(&tb[t]));
+                    if (p->mode == 17 && c17_after(t, "rehash")) return;
                     if (g_aborted) VIOL("abort", "rehash aborted");
                     m->builtin = 0; m->settled = 1; m->hist[1].n = 0; m->hist[2].n = 0;
                     PROBE("left_builtin_function");
@@ -1072,6 +1080,18 @@ static void x_gen(prng_t *r, int mode, plan_t *p)
     uint64_t cur[2] = { 0, 0 };
 
     if (mode == 16) budget = 10 + (int)prng_below(r, 30);
+    if (mode == 17 && prng_chance(r, 1, 6)) {
+        /* a table that starts on the library's built-in function, is filled, and is then resized to a caller's
+         * function that returns an out-of-range value while that rehash is worked off */
+        op_t *o; int n;
+        p->cfg[CF_NT] = 1; p->cfg[CF_KEYS] = 2 + prng_below(r, 39); p->cfg[CF_JUNK] = 1 + prng_below(r, 254); p->cfg[CF_MAXE] = 64;
+        p->cfg[CF_SPREAD] = prng_below(r, 2); p->cfg[CF_AUDIT_PM] = 100; p->cfg[CF_RPOLICY] = prng_below(r, 3); p->cfg[CF_TABSEED] = prng_next(r);
+        o = plan_add(p, O_RESIZE); o->a[0] = 0; o->a[1] = 1 + prng_below(r, 32); o->a[2] = F_NULL; o->a[3] = 0; o->a[7] = 1;    /* a[7]: keep the built-in function */
+        for (n = 2 + (int)prng_below(r, 20); n > 0; n--) { o = plan_add(p, O_INSERT); o->a[0] = 0; o->a[1] = prng_next(r) >> 16; o->a[2] = prng_below(r, 6); o->a[3] = prng_next(r) >> 8; }
+        o = plan_add(p, O_RESIZE); o->a[0] = 0; o->a[1] = 1 + prng_below(r, 32); o->a[2] = 1 + prng_below(r, NFN - 1); o->a[3] = 0;
+        o->a[5] = 1 + prng_below(r, 3); o->a[6] = prng_below(r, 7);
+        return;
+    }
     if (mode == 117) {
         /* the range-scan batch: run i scans slice i mod 256 of the 32-bit keys; the table sizes change every 256 runs */
         op_t *o;
